@@ -744,3 +744,46 @@ Proof.
       * eexists [_]. split; [reflexivity|]. simpl. rewrite PA. reflexivity.
       * apply extends_emit. apply forallb_map_const. assumption.
 Qed.
+
+(* ================================================================ the boundary of the claim about moved-from objects
+   The property: the source of a move is "destructible, clearable, swappable and assignable (and fully usable again once
+   assigned)".  GUARANTEED = moved_from_ops_total_native / moved_from_ops_total_stdish above (assignment INTO).
+   NOT guaranteed = every use that needs the moved-from object's own crew: as the SOURCE of a stdish move / copy
+   assignment or of X(X&&, alloc), as the source of any copy construction, initializer-list assignment, insertion,
+   lookup.  The model (like the code) dereferences the null crew in each of them, for every allocator type. *)
+Theorem moved_from_not_a_source :
+  forall wk tr k multi c v vs al w,
+    w_move_assign wk tr c MovedFrom w = NullCrew /\
+    w_copy_assign wk tr c MovedFrom w = NullCrew /\
+    w_create wk tr MovedFrom al w = NullCrew /\
+    cc_copy_ctor k MovedFrom w = NullCrew /\
+    cc_copy_ctor_mm k MovedFrom al w = NullCrew /\
+    cc_copy_assign k c MovedFrom w = NullCrew /\
+    w_assign_ilist wk multi MovedFrom vs w = NullCrew /\
+    cc_insert k multi MovedFrom v w = NullCrew /\
+    cc_find MovedFrom v w = NullCrew.
+Proof.
+  intros. repeat split; try reflexivity.
+  - unfold w_move_assign. destruct (w_propagate_move tr); simpl; [reflexivity|]. destruct c; reflexivity.
+  - unfold w_copy_assign. destruct (w_propagate_copy tr); simpl; [reflexivity|]. destruct c; reflexivity.
+Qed.
+
+(* native containers: a moved-from object MAY be the source of a move (crew pointers are just exchanged); the target
+   then is moved-from as well *)
+Theorem moved_from_native_move_source :
+  forall k dst w, cc_wf dst -> exists w', cc_move_assign k dst MovedFrom w = Ok (MovedFrom, MovedFrom) w'.
+Proof. intros k dst w H. destruct (cc_move_assign_spec k dst MovedFrom w H) as (w' & E & _). eauto. Qed.
+
+(* vm_compute witnesses of the NOT-guaranteed side, one per use (std::allocator-like traits: even the most benign
+   allocator fails) *)
+Definition std_alloc_traits : traits := mkTraits false true false true true.
+Example boundary_witnesses :
+  w_move_assign WSet std_alloc_traits some_set MovedFrom w0 = NullCrew /\
+  cc_copy_ctor KTree MovedFrom w0 = NullCrew /\
+  w_assign_ilist WSet false MovedFrom [1; 2] w0 = NullCrew /\
+  cc_insert KTree false MovedFrom 5 w0 = NullCrew /\
+  cc_find MovedFrom 5 w0 = NullCrew /\
+  (* ... while the guaranteed side works on the same objects *)
+  w_move_assign WSet std_alloc_traits MovedFrom some_set w0 = Ok (some_set, MovedFrom) w0 /\
+  (exists c w, w_assign_ilist WSet false some_set [1; 2] w0 = Ok c w /\ items_of c = [1; 2]).
+Proof. vm_compute. repeat split. do 2 eexists. split; reflexivity. Qed.
